@@ -41,8 +41,9 @@ def main():
                     t = open(p).read()
                 except Exception:
                     continue
-                if seedwt in t:
-                    open(p, "w").write(t.replace(seedwt, wt))
+                srcdemo = os.path.join(src, "demo")
+                if seedwt in t or srcdemo in t:
+                    open(p, "w").write(t.replace(srcdemo, demo).replace(seedwt, wt))
         if os.path.exists(os.path.join(demo, "go.mod")):
             shutil.copy(os.path.join(wt, "go.sum"), os.path.join(demo, "go.sum"))
         inpkg = None
